@@ -21,9 +21,14 @@ const (
 	fateCommit = iota
 	fateAbortBeforeBody
 	fateAbortAfterBody
+	// pipeline family (pipeline_test.go): the queue is one of two targets behind
+	// a real msgpipeline and the TRANSACTION is aborted because ...
+	fateBodyRefusedByOther  // ... the other target refused the body (DATA failed)
+	fateBodyRejectedByCheck // ... a check rejected the body
+	fateRcptRejectedByCheck // ... a check rejected a later recipient and the client gave up
 )
 
-var fateNames = []string{"commit", "abort-before-body", "abort-after-body"}
+var fateNames = []string{"commit", "abort-before-body", "abort-after-body", "abort-body-refused-by-other-target", "abort-body-rejected-by-check", "abort-rcpt-rejected-by-check"}
 
 // msgSpec is the harness' own record of one enqueued message: every oracle
 // decision about "what was accepted" is taken against this record, never
@@ -53,6 +58,17 @@ type msgSpec struct {
 	AddedFields int
 	// SMTPUTF8 message (UTF-8 addresses)
 	UTF8 bool
+	// envelope / metadata shapes (meta_test.go)
+	NullSender    bool   // MAIL FROM:<>: From and MsgMetadata.OriginalFrom are empty
+	OrigFromUnset bool   // From set, MsgMetadata.OriginalFrom empty (message injected by a module that does not fill it in)
+	RichMeta      bool   // every optional MsgMetadata field carries a non-zero value
+	IDKind        string // "" | one-octet | long | punctuated
+	// pipeline family (pipeline_test.go); Rcpts are the recipients routed to the queue
+	OtherRcpts   []string // recipients routed to the other target
+	OtherBody    string   // class of the other target's Body result ("" = ok)
+	OtherAbort   string   // class of the other target's Abort result ("" = ok)
+	RejectedRcpt string   // recipient a check rejects (fateRcptRejectedByCheck)
+	OtherFirst   bool     // the client names a recipient of the other target first
 
 	classes     []string
 	classesDone bool
@@ -83,7 +99,17 @@ type scenario struct {
 	// Sparse: the recorder keeps only some of the writes into header / body
 	// files (sizes_test.go); for messages of megabytes.
 	Sparse bool
+	// Pipeline: the recording run drives the messages through a real
+	// msgpipeline with two targets, the queue and a scripted one
+	// (pipeline_test.go); Idx names the registered instances.
+	Pipeline bool
+	Idx      int
 }
+
+// noReport: the queue rightly emits no failure report for this message (null
+// reverse-path), so a terminal failure of one of its recipients could not be
+// observed as "reported". Scenarios never script one for it (checkNoReport).
+func (m *msgSpec) noReport() bool { return m.From == "" || m.OrigFromUnset }
 
 func (s *scenario) msg(id string) *msgSpec {
 	for _, m := range s.Msgs {
@@ -100,6 +126,9 @@ func (s *scenario) shape() string {
 	if s.Sparse {
 		b.WriteString("|sparse|" + s.Name)
 	}
+	if s.Pipeline {
+		b.WriteString("|pipeline")
+	}
 	for _, m := range s.Msgs {
 		fmt.Fprintf(&b, "|%s:%d:", fateNames[m.Fate], len(m.Rcpts))
 		for _, sq := range m.Seq {
@@ -112,6 +141,12 @@ func (s *scenario) shape() string {
 		if m.HdrKind != "" || m.BodyKind != "" || m.UTF8 {
 			fmt.Fprintf(&b, ":h=%s:b=%s:added=%d:utf8=%v", m.HdrKind, m.BodyKind, m.AddedFields, m.UTF8)
 		}
+		if m.NullSender || m.OrigFromUnset || m.RichMeta || m.IDKind != "" {
+			fmt.Fprintf(&b, ":null=%v:noorig=%v:rich=%v:id=%s", m.NullSender, m.OrigFromUnset, m.RichMeta, m.IDKind)
+		}
+		if s.Pipeline {
+			fmt.Fprintf(&b, ":other=%d:body=%s:abort=%s:first=%v", len(m.OtherRcpts), m.OtherBody, m.OtherAbort, m.OtherFirst)
+		}
 	}
 	return b.String()
 }
@@ -120,9 +155,11 @@ func (s *scenario) describe() map[string]any {
 	var ms []map[string]any
 	for _, m := range s.Msgs {
 		ms = append(ms, map[string]any{"id": m.ID, "from": m.From, "rcpts": m.Rcpts, "fate": fateNames[m.Fate], "rcpt_outcomes": m.Seq, "whole_failures": m.Whole, "rcpt_stage": m.RcptStage, "header_bytes": len(m.hdrBytes), "body_bytes": len(m.bodyBytes), "file_body": m.FileBody,
-			"header_kind": m.HdrKind, "body_kind": m.BodyKind, "fields_added_by_pipeline": m.AddedFields, "smtputf8": m.UTF8, "size_classes": m.sizeClasses()})
+			"header_kind": m.HdrKind, "body_kind": m.BodyKind, "fields_added_by_pipeline": m.AddedFields, "smtputf8": m.UTF8, "size_classes": m.sizeClasses(),
+			"null_sender": m.NullSender, "original_from_unset": m.OrigFromUnset, "rich_msgmeta": m.RichMeta, "id_kind": m.IDKind,
+			"rcpts_of_other_target": m.OtherRcpts, "other_target_body": m.OtherBody, "other_target_abort": m.OtherAbort, "rcpt_rejected_by_check": m.RejectedRcpt, "other_target_named_first": m.OtherFirst})
 	}
-	return map[string]any{"name": s.Name, "partial_delivery": s.Partial, "max_tries": s.MaxTries, "gate": s.Gate, "depth": s.Depth, "flaky_recovery": s.FlakyRecovery, "sparse_recording": s.Sparse, "messages": ms}
+	return map[string]any{"name": s.Name, "via_pipeline_with_second_target": s.Pipeline, "partial_delivery": s.Partial, "max_tries": s.MaxTries, "gate": s.Gate, "depth": s.Depth, "flaky_recovery": s.FlakyRecovery, "sparse_recording": s.Sparse, "messages": ms}
 }
 
 func (s *scenario) nontrivial() bool {
